@@ -11,7 +11,8 @@ RULE = ("records = real calls on dask-backed data: diff/interp/min/max/cumsum (1
         "cumint/metric_weighted with metrics, apply_as_grid_ufunc with and without map_overlap, face-connected grids "
         "chunked over face and extra dims (scalar and vector); every composition of the operated dimension's length into "
         "chunks (others sampled), synchronous and threaded schedulers; a dask callback counts graph executions while "
-        "the result is built; non-trivial = distinct (kind, op, shift, chunk composition) classes")
+        "the result is built; non-trivial = distinct (kind, op, shift, chunk composition) classes"
+        ' Also: user functions over two core dimensions (widths keyed in either order or for one axis), of two inputs (same rank or a profile against a field), lazy vector components on plain grids, a second lazy result of another rule computed in the same dask computation, names compared with the in-memory result.')
 
 
 def compositions(n):
